@@ -41,12 +41,13 @@ type Tier struct {
 
 // Unit functions by name.
 var Units = map[string]func(p *load.Program, r *Roles, t Tier) *UnitResult{
-	"loops":  func(p *load.Program, r *Roles, t Tier) *UnitResult { return AnalyzeRetryLoops(p, r) },
-	"bind":   func(p *load.Program, r *Roles, t Tier) *UnitResult { return AnalyzeBind(p, r, t.Depth) },
-	"access": func(p *load.Program, r *Roles, t Tier) *UnitResult { return AnalyzeAccessors(p, r, t.Depth) },
-	"pool":   func(p *load.Program, r *Roles, t Tier) *UnitResult { return AnalyzePool(p, r, t.Depth) },
-	"store":  func(p *load.Program, r *Roles, t Tier) *UnitResult { return AnalyzeStore(p, r, t.Depth) },
-	"flow":   func(p *load.Program, r *Roles, t Tier) *UnitResult { return AnalyzeFlow(p, r, t.Depth) },
+	"loops":    func(p *load.Program, r *Roles, t Tier) *UnitResult { return AnalyzeRetryLoops(p, r) },
+	"bind":     func(p *load.Program, r *Roles, t Tier) *UnitResult { return AnalyzeBind(p, r, t.Depth) },
+	"adapters": func(p *load.Program, r *Roles, t Tier) *UnitResult { return AnalyzeAdapters(p, r, t.Depth) },
+	"access":   func(p *load.Program, r *Roles, t Tier) *UnitResult { return AnalyzeAccessors(p, r, t.Depth) },
+	"pool":     func(p *load.Program, r *Roles, t Tier) *UnitResult { return AnalyzePool(p, r, t.Depth) },
+	"store":    func(p *load.Program, r *Roles, t Tier) *UnitResult { return AnalyzeStore(p, r, t.Depth) },
+	"flow":     func(p *load.Program, r *Roles, t Tier) *UnitResult { return AnalyzeFlow(p, r, t.Depth) },
 	"run": func(p *load.Program, r *Roles, t Tier) *UnitResult {
 		res := AnalyzeRun(p, r, t.Depth)
 		return &UnitResult{Col: res.Col, Stats: res.Stats}
@@ -86,12 +87,13 @@ func MatchKey(pattern, key string) bool {
 
 func init() {
 	lifeExpl := "Path-sensitive typestate/provenance abstract interpretation (engine LIFE) of Run with every in-package static callee inlined (runBatch, sequential/concurrent item loops, the submitted task closure, the per-item retry function), explored to a fixpoint under the four cases of the immutable batch configuration (stop|continue x sequential|concurrent). User callbacks are opaque events whose results are symbolic; every branch the collected facts do not decide is followed both ways, so every outcome script, budget N>=1 and cancellation point is covered by finitely many abstract states. Each obligation is a rule evaluated at a construct role on every abstract path reaching it."
-	reg(&Prop{ID: "C01", Units: []string{"run"}, Technique: "static analysis: path-sensitive typestate + value-provenance abstract interpretation over go/ssa",
+	reg(&Prop{ID: "C01", Units: []string{"run", "adapters"}, Technique: "static analysis: path-sensitive typestate + value-provenance abstract interpretation over go/ssa",
 		Explanation: lifeExpl + " C01 decides: prep first/once with the run's own store; exec only after a successful prep or a failed exec, with prep's value; post at most once, only after the exec phase (attempt or fallback) is known to have succeeded, with (store, prep value, that result); returns are (post's action|default, nil) or (\"\", non-nil).",
 		CaseRule:    "an obligation instance is one (abstract path, call site) pair at which the rule was evaluated; distinct = distinct rule@construct keys with at least one instance",
 		Floors: []Floor{{"C01.R1@single|*:cb:Prep", 1, "prep invoke on the single-node path"}, {"C01.R2@single|*:cb:Exec", 1, "exec invoke on the single-node path"},
 			{"C01.R3@single|*:cb:Post", 1, "post invoke on the single-node path"}, {"C01.R5@single|*:return", 1, "returns of the single-node path"},
-			{"C01.R2@batch|*:cb:Exec", 1, "per-item exec"}, {"C01.R3@batch|*:cb:Post", 1, "batch post"}},
+			{"C01.R2@batch|*:cb:Exec", 1, "per-item exec"}, {"C01.R3@batch|*:cb:Post", 1, "batch post"},
+			{"C01.R6@*:delegation", 10, "library phase methods forward positionally"}, {"C01.R7@*:implements-*", 18, "method-set table"}, {"C01.R7@*-resolution", 30, "promoted method resolution"}},
 		Assumptions: commonAssumptions})
 	reg(&Prop{ID: "C02", Units: []string{"run", "loops"}, Technique: "static analysis: scalar-evolution trip-count analysis + path-sensitive retry typestate over go/ssa",
 		Explanation: lifeExpl + " C02 decides: (R1, static arithmetic) every loop that directly contains an exec attempt has a unit-step attempt counter whose exit test, evaluated after attempt j, is equivalent to j < V for one symbolic V, and (R1, path-sensitive half) V is the node's GetMaxRetries() value, or the constant 1 for a node known not to expose retry settings; (R2) exactly one attempt per iteration; (R3) a further attempt only after a known-failed one, and a run fails with an exec error only after the budget test exhausted; (R4) the fallback is invoked at most once, only after exhaustion with the last attempt known failed, on the node being run, with (prep value, that last error), and is not skipped when the node may implement it. Same rules on the single-node path and on the per-item path.",
@@ -178,10 +180,16 @@ func init() {
 		Floors: []Floor{{"C16.R1@*.Bind:may-panic", 2, "may-panic scan of both Binds"}, {"C16.R1@*.Bind:(reflect.Value).Set", 2, "Set preconditions"}, {"C16.R1@*.Bind:(reflect.Value).IsNil", 2, "IsNil preconditions"}, {"C16.R2@*.Bind:unmarshal", 2, "Marshal->Unmarshal provenance"},
 			{"C16.R2@*.Bind:success-return", 2, "success only after binding"}, {"C16.R2@*.Bind:error-return", 2, "json errors returned"}, {"C16.R3@*.Bind:invalid-input-return", 2, "invalid inputs"}, {"C16.R5@*.Bind:fast-path", 2, "identity copy condition"}, {"C16.R5@Bind:siblings", 1, "sibling agreement"}},
 		Assumptions: append(append([]string{}, commonAssumptions...), "encoding/json is the reference for the round trip (cyclic data, panicking MarshalJSON are outside)")})
-	reg(&Prop{ID: "C04", Units: []string{"run", "flow"}, Technique: "static analysis: path-sensitive error-provenance (wrap-chain) abstract interpretation over go/ssa",
+	reg(&Prop{ID: "C17", Units: []string{"adapters"}, Technique: "static analysis: compositional symbolic exploration of adapter pairs (producer output substituted into the consumer) + wrapper summaries vs. specification",
+		Explanation: "The function-style node adapters are decided compositionally. For each producer (CustomNode.Prep / Exec / ExecFallback) every success path is explored and its output term recorded together with the facts about the Result its user function returned; each consumer (CustomNode.Exec / Post) is then explored with that output bound to its parameter and those facts (plus A5: payloads are not themselves Results) preloaded, and the Result its user function receives is compared with what the previous function returned: identical for an error Result from exec (never re-wrapped, never stripped), otherwise a Result whose value is exactly the returned value. A batch item (already a Result) must reach the exec function unwrapped. The Any-style wrappers of all three construction forms (option, NodeBuilder method, BatchNodeBuilder method) are located as closures stored into the function fields and checked against one specification (arguments: context/store unchanged, Value() of each Result; results: the user's value wrapped exactly once, the user's error itself), which also makes the forms interchangeable.",
+		CaseRule:    "an obligation instance is one (producer path, consumer path, call) triple or one wrapper path; distinct = distinct rule@construct keys",
+		Floors: []Floor{{"C17.R1@prep->exec", 1, "prep value reaches exec"}, {"C17.R1@prep->post", 1, "prep value reaches post"}, {"C17.R1@exec->post", 1, "exec value and error result reach post"}, {"C17.R2@exec->post", 1, "error state preserved"}, {"C17.R2@CustomNode.Exec:producer", 1, "exec distinguishes error results"}, {"C17.R1@fallback->post", 1, "fallback value reaches post"},
+			{"C17.R1@item->exec", 1, "batch items unwrapped"}, {"C17.R3@*:wrapper", 7, "seven Any-style wrappers"}},
+		Assumptions: append(append([]string{}, commonAssumptions...), "A5: user payloads are not themselves flyt.Result values except where the framework produces them (batch items, error results)")})
+	reg(&Prop{ID: "C04", Units: []string{"run", "flow", "adapters"}, Technique: "static analysis: path-sensitive error-provenance (wrap-chain) abstract interpretation over go/ssa",
 		Explanation: lifeExpl + " C04 decides on Run (single and batch paths): nil error iff the path ended in a successful post; every error return that follows a failing callback wraps (fmt.Errorf %w / errors.Join / identity) that callback's own error term, and no further phase callback is invoked after it.",
 		CaseRule:    "an obligation instance is one (abstract path, return or call site) pair; distinct = distinct rule@construct keys",
-		Floors:      []Floor{{"C04.R1@single|*:return", 1, "success returns, single"}, {"C04.R2@single|*:return", 3, "error returns (prep, exec, post), single"}, {"C04.R2@batch|*:return", 2, "error returns, batch"}, {"C04.R3@*", 3, "fail-stop checks"}, {"C04.R4@*:child-run", 1, "flow stops after a failed node"}, {"C04.R4@*:error-return", 1, "flow returns the child's error"}},
+		Floors:      []Floor{{"C04.R1@single|*:return", 1, "success returns, single"}, {"C04.R2@single|*:return", 3, "error returns (prep, exec, post), single"}, {"C04.R2@batch|*:return", 2, "error returns, batch"}, {"C04.R3@*", 3, "fail-stop checks"}, {"C04.R4@*:child-run", 1, "flow stops after a failed node"}, {"C04.R4@*:error-return", 1, "flow returns the child's error"}, {"C04.R6@*", 5, "library adapters and defaults are transparent"}},
 		Assumptions: commonAssumptions})
 	reg(&Prop{ID: "C05", Units: []string{"run", "flow"}, Technique: "static analysis: path-sensitive context-observation typestate over go/ssa",
 		Explanation: lifeExpl + " C05 decides on the single-node path of Run: a context observation (ctx.Err()==nil edge, or a select with ctx.Done() taking another case) lies between the previous user callback (or the start) and prep / every exec attempt; every path that observed cancellation invokes no further callback and returns a non-nil error wrapping a ctx.Err() result; the retry wait selects on ctx.Done().",
